@@ -8,7 +8,7 @@ from fractions import Fraction
 import numpy as _np
 
 from . import dag
-from .sym import S, SB, lift, sc, PI, SymbolicConcretisation, SArr, as_sarr
+from .sym import S, SB, lift, sc, PI, SymbolicConcretisation, SArr, as_sarr, cplx_sym
 from .dag import ZERO, ONE, const
 
 _INTKINDS = "iub"
@@ -22,6 +22,13 @@ def _is_float_dtype(dtype):
     except TypeError:
         return False
     return k in "fc"
+
+
+def _is_cplx(dtype):
+    try:
+        return _np.dtype(dtype).kind == "c"
+    except TypeError:
+        return False
 
 
 def _obj_zeros(shape, val=ZERO):
@@ -147,6 +154,8 @@ class NPShim(object):
 
     # ---------------------------------------------------------------- allocation
     def zeros(self, shape, dtype=None, order="C", **kw):
+        if self._sym and dtype is not None and _is_cplx(dtype):
+            return cplx_sym(shape if not isinstance(shape, int) else (shape,))
         if self._sym and _is_float_dtype(dtype):
             return _obj_zeros(shape)
         return _np.zeros(shape, dtype=dtype, order=order)
